@@ -37,6 +37,9 @@ def bop (ctx : Array (Option RCell)) (tok : String) : Option (BOp RCell) :=
       pure (BOp.storeSlice (c.bits.drop (← sb.toNat?)) (c.refs.drop (← sr.toNat?)))
   | "a" :: rest => do pure (BOp.storeAddress (← parseAddr rest))
   | ["sn", h] => do pure (BOp.storeSnake mkCell (← hexArg h))
+  | ["d", n] => if n == "-" then some (BOp.storeDict none) else do pure (BOp.storeDict (some (← node n)))
+  | ["s", h] => do pure (BOp.storeString (← hexArg h))
+  | ["sns", h, p] => do pure (BOp.storeSnakeString mkCell (← hexArg h) (p == "1"))
   | _ => none
 
 /-- `bscript <dag|-> <ops;...>` → `ok <flags> <bits> <refs> <endcell hash|err>` -/
@@ -87,6 +90,11 @@ def sop (tok : String) (s : Slice RCell) : Option (Slice RCell × String) :=
   | ["pa"] => fin (SOp.preloadAddress s) showAddr
   | ["lall"] => fin (SOp.loadAllBytes s) dashHex
   | ["lsn"] => fin (SOp.loadSnakeFuel (fun c => (c.bits, c.refs)) 2000 s) dashHex
+  | ["lss"] => fin (SOp.loadSnakeStringFuel (fun c => (c.bits, c.refs)) 2000 s) dashHex
+  | ["ld", _] => fin (SOp.loadDict s) showOptRef
+  | ["pd", _] => fin (SOp.preloadDict s) showOptRef
+  | ["ls", n] => do fin (SOp.loadString (← n.toNat?) s) dashHex
+  | ["ps", n] => do fin (SOp.preloadString (← n.toNat?) s) dashHex
   | _ => none
 
 /-- `sscript <dag> <node> <ops;...>` → `ok <r1>;<r2>;... <remaining bits> <remaining refs>` -/
